@@ -14,3 +14,90 @@ def run(ctx):
     planlevel.plan_campaign(ctx, {"C06"})
     import prune_corr
     prune_corr.run_prune(ctx)       # dependencies routed through literals survive pruning (Cache/Prune.v)
+    awkward_failures(ctx)
+
+
+def awkward_failures(ctx):
+    """The error that run raises names the failing call and chains the very exception it raised, also when
+    - the failing callable object (or a value in the call's scope) has a __repr__ that raises,
+    - the exception is not an Exception (SystemExit / custom BaseException) or is falsy,
+    - run is called from inside an `except` block (an unrelated exception is being handled)."""
+    import threading
+    uberjob = core.use_repo()
+
+    class Loader:
+        """a callable whose repr only works after a successful call"""
+        def __call__(self):
+            raise self.exc
+
+        def __repr__(self):
+            return "Loader(%s)" % self.loaded          # AttributeError: never loaded
+
+    class BadScope:
+        def __repr__(self):
+            raise RuntimeError("repr of the scope value fails")
+
+        def __hash__(self):
+            return 1
+
+        def __eq__(self, o):
+            return self is o
+
+    class Cancelled(BaseException):
+        pass
+
+    class Falsy(Exception):
+        def __bool__(self):
+            return False
+    for exc in (ValueError("v"), Cancelled("c"), SystemExit(3), Falsy("f")):
+        for variant in ("plain", "raising-repr-callable", "raising-repr-scope", "inside-except"):
+            for workers in (1, 3):
+                plan = uberjob.Plan()
+                dependents = []
+                if variant == "raising-repr-callable":
+                    fn = Loader()
+                    fn.exc = exc
+                    bad = plan.call(fn)
+                elif variant == "raising-repr-scope":
+                    with plan.scope(BadScope()):
+                        bad = plan.call(lambda: (_ for _ in ()).throw(exc))
+                else:
+                    bad = plan.call(lambda: (_ for _ in ()).throw(exc))
+                after = plan.call(lambda v: dependents.append(v), bad)
+                box = {}
+
+                def target():
+                    try:
+                        if variant == "inside-except":
+                            try:
+                                raise KeyError("unrelated")
+                            except KeyError:
+                                uberjob.run(plan, output=after, max_workers=workers, progress=None)
+                        else:
+                            uberjob.run(plan, output=after, max_workers=workers, progress=None)
+                        box["o"] = ("returned", None)
+                    except uberjob.CallError as e:
+                        box["o"] = ("callerror", e)
+                    except BaseException as e:      # noqa
+                        box["o"] = ("other", e)
+                th = threading.Thread(target=target, daemon=True)
+                hook, threading.excepthook = threading.excepthook, (lambda a: None)
+                try:
+                    th.start()
+                    th.join(20)
+                finally:
+                    threading.excepthook = hook
+                rep = {"exception": type(exc).__name__, "variant": variant, "max_workers": workers}
+                ctx.case(("c06-awkward", type(exc).__name__, variant, workers))
+                if "o" not in box:
+                    ctx.fail("awkward:hang", "a call raising %s (%s): run did not return within 20 s" % (type(exc).__name__, variant), rep)
+                    return
+                kind, e = box["o"]
+                if kind != "callerror":
+                    ctx.fail("awkward:not-raised", "a call raising %s (%s): run %s instead of raising CallError" % (
+                        type(exc).__name__, variant, "returned normally" if kind == "returned" else "raised %r" % (e,)), rep)
+                elif e.call is not bad or e.__cause__ is not exc:
+                    ctx.fail("awkward:wrong-error", "a call raising %s (%s): CallError.call is %sthe failing call, __cause__ is %r (raised: %r)" % (
+                        type(exc).__name__, variant, "" if e.call is bad else "NOT ", e.__cause__, exc), rep)
+                if dependents:
+                    ctx.fail("awkward:downstream-ran", "the dependent of the failing call ran", rep)
